@@ -1,14 +1,29 @@
 import GarbleVerif.Proofs.BristolTotal
+import GarbleVerif.Proofs.BristolRoundtrip
 /-!
 # C11 — Bristol export/import; malformed files are rejected
 
-Proved: **importer totality** — for every file (any list of token lines: mutated exports,
-random text, inconsistent or huge counts) the model of `bristol_to_garble` returns a circuit or
-one of the importer's error values; the `crash` outcome, which marks every index operation
-and subtraction of the Rust code, is unreachable.
+Proved, for the token-level models of `format_as_bristol` / `bristol_to_garble` (`Model/Bristol.lean`):
 
-Not yet proved (checked by the correspondence and the round-trip / well-formedness oracles of
-`./check C11`): `C11_roundtrip_Statement` and the well-formedness of the exported text.
+* **importer totality** (`C11_import_total`) — for every file (any list of token lines: mutated
+  exports, random text, inconsistent or huge counts) the importer returns a circuit or one of its
+  error values; the `crash` outcome, which marks every index operation and subtraction of the Rust
+  code, is unreachable.
+* **round trip** (`C11_roundtrip`) — every valid circuit whose outputs are not input wires is exported
+  without error, the importer accepts the file, and the imported circuit computes on every input of
+  the declared shape the original outputs without the panic record, in the same order.
+* **well-formed export** (`C11_export_wellformed`) — the counts of the header are the numbers of
+  gate lines and wires, the gate lines are the circuit's gates in their original order followed by
+  the copies made for repeated outputs (so every operand is assigned by an earlier line), line `j`
+  assigns wire `f (inputs + j)` for an injective renumbering `f` that fixes the input wires and
+  sends the `k`-th output — the outputs are pairwise distinct after de-aliasing — to the `k`-th of
+  the last wires.
+
+The round trip has one hypothesis beyond the property's text: the exported file must stay within the
+importer's limit of `MAX_GATES` wires. `validate` bounds the circuit itself, but every repeated output
+adds two gates on export; a circuit with more than 2^31 repeated outputs is exported to a file that
+the importer refuses (`malformedLine`) — an error, not a wrong circuit. Decimal printing and parsing
+of the tokens is outside the model (harness glue, exercised by the correspondence check).
 -/
 namespace GV
 open Bristol
@@ -18,15 +33,68 @@ theorem C11_import_total (lines : List Line) :
     ∀ e, importLines lines = .error e → e.isCrash = false :=
   importLines_no_crash lines
 
-/-- export followed by import preserves the non-panic outputs (NOT yet proved) -/
-def C11_roundtrip_Statement : Prop :=
-  ∀ (c : Circuit), c.validate = .ok () → 161 ≤ c.outputGates.length →
-    (∀ o, o ∈ c.outputGates.drop 161 → c.totalInputs ≤ o) →
-    ∃ ls c', exportLines c = .ok ls ∧ importLines ls = .ok c' ∧
-      ∀ ins, Circuit.shapeOk c.inputGates ins = true → c'.eval? ins = (c.eval? ins).map (List.drop 161)
+/-- number of wires the exported file declares: the circuit's wires plus two per repeated output -/
+def Bristol.exportedWires (c : Circuit) : Nat :=
+  c.gates.length + (dealias (c.outputGates.drop 161) [] (c.gates.length + c.totalInputs) []).2.length
+    + c.totalInputs
 
-/-! ### non-vacuity: malformed headers are errors (more outputs than wires; a wire that no gate
-line can produce) -/
+/-- export followed by import preserves the non-panic outputs on every input -/
+theorem C11_roundtrip (c : Circuit) (hv : c.validate = .ok ()) (h161 : 161 ≤ c.outputGates.length)
+    (hin : ∀ o, o ∈ c.outputGates.drop 161 → c.totalInputs ≤ o)
+    (hmax : exportedWires c ≤ MAX_GATES) :
+    ∃ ls c', exportLines c = .ok ls ∧ importLines ls = .ok c' ∧
+      ∀ ins, Circuit.shapeOk c.inputGates ins = true → c'.eval? ins = (c.eval? ins).map (List.drop 161) :=
+  roundtrip c hv h161 hin hmax
+
+/-- the imported circuit is, gate for gate, the exported one -/
+theorem C11_import_of_export (c : Circuit) (hv : c.validate = .ok ()) (h161 : 161 ≤ c.outputGates.length)
+    (hin : ∀ o, o ∈ c.outputGates.drop 161 → c.totalInputs ≤ o)
+    (hmax : exportedWires c ≤ MAX_GATES) :
+    ∃ ls, exportLines c = .ok ls ∧
+      importLines ls = .ok
+        { inputGates := c.inputGates
+          gates := c.gates ++ (dealias (c.outputGates.drop 161) [] (c.gates.length + c.totalInputs) []).2
+          outputGates := (dealias (c.outputGates.drop 161) [] (c.gates.length + c.totalInputs) []).1 } :=
+  export_import c hv h161 hin hmax
+
+/-- the exported text is well-formed Bristol fashion -/
+theorem C11_export_wellformed (c : Circuit) (hv : c.validate = .ok ()) (h161 : 161 ≤ c.outputGates.length)
+    (hin : ∀ o, o ∈ c.outputGates.drop 161 → c.totalInputs ≤ o) :
+    ∃ (f : Nat → Nat) (outs : List Nat) (gates : List Gate),
+      WmOK c.totalInputs (gates.length + c.totalInputs) outs f ∧ outs.Nodup ∧
+      outs.length = (c.outputGates.drop 161).length ∧
+      Circuit.validateGates gates c.totalInputs = .ok () ∧
+      exportLines c = .ok ([[.num gates.length, .num (gates.length + c.totalInputs)],
+        .num c.inputGates.length :: c.inputGates.map .num, [.num 1, .num outs.length], []] ++
+        linesOf f c.totalInputs gates 0) :=
+  export_shape c hv h161 hin
+
+/-! ### non-vacuity -/
+
+/-- a circuit with a repeated and a constant output meets the hypotheses of the round trip -/
+def C11_example : Circuit :=
+  { inputGates := [1, 1], gates := [.xor 0 0, .and 0 1],
+    outputGates := List.replicate 161 2 ++ [3, 2, 3] }
+
+example : C11_example.validate = .ok () ∧ 161 ≤ C11_example.outputGates.length ∧
+    (∀ o, o ∈ C11_example.outputGates.drop 161 → C11_example.totalInputs ≤ o) ∧
+    exportedWires C11_example ≤ MAX_GATES := by
+  have hlen : C11_example.outputGates.length = 164 := by
+    simp only [C11_example, List.length_append, List.length_replicate, List.length_cons, List.length_nil]
+  have hdrop : C11_example.outputGates.drop 161 = [3, 2, 3] := by
+    simp only [C11_example]
+    exact List.drop_left' (by simp only [List.length_replicate])
+  refine ⟨by rfl, by omega, ?_, ?_⟩
+  · intro o ho
+    rw [hdrop] at ho
+    simp only [List.mem_cons, List.not_mem_nil, or_false] at ho
+    have : C11_example.totalInputs = 2 := by rfl
+    omega
+  · unfold exportedWires
+    rw [hdrop]
+    decide
+
+/-- malformed headers are errors (more outputs than wires; a wire that no gate line can produce) -/
 example : importLines [[.num 1, .num 3], [.num 1, .num 2], [.num 1, .num 5]] = .error .malformedLine := by
   rfl
 example : importLines [[.num 0, .num 9], [.num 1, .num 2], [.num 1, .num 1]] = .error .malformedLine := by
